@@ -125,7 +125,7 @@ def mutants(dirs, expect_alarm=True):
     items = patch_catalogue(dirs)
     only = os.environ.get('LSIM_ONLY')
     if only:
-        items = [m for m in items if only in os.path.basename(m['dir'])]
+        items = [m for m in items if any(o in os.path.basename(m['dir']) for o in only.split(','))]
     results = []
     ok = True
     for m in items:
@@ -153,10 +153,13 @@ def mutants(dirs, expect_alarm=True):
             shutil.rmtree(d, ignore_errors=True)
         good = bool(caught) if expect_alarm else (not caught and not broken)     # a harness error under a neutral refactor is a broken check
         ok &= good
+        # observed by the search but not replayable (address-dependent behaviour, DESIGN.md section 15): exit 2, not a VIOLATION line
+        unreplayable = expect_alarm and not caught and broken and any('reproduce' in x for x in lines)
+        status = (('CAUGHT' if caught else ('OBSERVED-NOT-REPLAYABLE' if unreplayable else 'MISSED')) if expect_alarm
+                  else ('FALSE-ALARM' if caught else ('BROKEN' if broken else 'QUIET')))
         results.append({'id': os.path.basename(m['dir']), 'property': m['property'], 'caught_by': caught, 'oracles': lines[:4],
-                        'ok': good, 'wall_s': round(time.time() - t0, 1)})
-        print('%-40s %-4s %s by=%s %s (%.0fs)' % (os.path.basename(m['dir']), m['property'],
-                                                   ('CAUGHT' if caught else 'MISSED') if expect_alarm else ('FALSE-ALARM' if caught else ('BROKEN' if broken else 'QUIET')),
+                        'ok': good, 'status': status, 'wall_s': round(time.time() - t0, 1)})
+        print('%-40s %-4s %s by=%s %s (%.0fs)' % (os.path.basename(m['dir']), m['property'], status,
                                                    ','.join(caught) or '-', '; '.join(x[:110] for x in lines[:2]), time.time() - t0))
         sys.stdout.flush()
     os.makedirs(os.path.join(VERIF, 'selftest'), exist_ok=True)
